@@ -155,8 +155,8 @@ class Ctx:
         self.steps += 1
         try:
             return ("ok", fn(*a, **k))
-        except RunTimeout:
-            raise
+        except (RunTimeout, Violation, HarnessError):
+            raise   # raised by a harness callback running inside the operation (e.g. a disk-event invariant)
         except Exception as e:  # the real code's answer, judged by the oracle
             return ("exc", e)
 
